@@ -654,6 +654,8 @@ func (d *Dev) Exec(line string) error {
 			}
 			if d.IOS && kw == "ip" && len(body) > 1 && (body[1] == "access-list" || body[1] == "route") {
 				// global commands, not interface sub-commands
+			} else if d.IOS && kw == "crypto" && strings.HasPrefix(d.cur.Line, "interface ") && len(body) != 3 {
+				// "crypto map NAME SEQ ..." is a global command
 			} else if m.subs[kw] || (m.opaque && !topKeywords[kw]) ||
 				(isNum && d.IOS && strings.HasPrefix(d.cur.Line, "ip access-list ")) {
 				return d.execSub(d.cur, neg, body)
@@ -1120,6 +1122,13 @@ func (d *Dev) execASARoute(neg bool, w []string) error {
 		ew := fields(e.Line)
 		if (ew[0] == "route" || (ew[0] == "ipv6" && len(ew) > 1 && ew[1] == "route")) &&
 			ew[0] == w[0] && routeDst(ew) == routeDst(w) {
+			// Equal-cost routes through one interface are accepted (the
+			// repository's test "Different next hop" relies on it); an
+			// exact duplicate or a second route through another
+			// interface is an error.
+			if routeIntf(ew) == routeIntf(w) && strings.Join(stripMetricW(ew), " ") != strings.Join(stripMetricW(w), " ") {
+				continue
+			}
 			return fmt.Errorf("route to %s already exists (%q)", routeDst(w), e.Line)
 		}
 	}
@@ -1294,3 +1303,15 @@ func (d *Dev) SubsOf(line string) []string {
 	}
 	return nil
 }
+
+func routeIntf(w []string) string {
+	if w[0] == "route" && len(w) > 1 {
+		return w[1]
+	}
+	if len(w) > 2 {
+		return w[2]
+	}
+	return ""
+}
+
+func stripMetricW(w []string) []string { return stripMetric(w) }
